@@ -158,7 +158,8 @@ def run(ctx):
         if re.search(r"expression::Express::var_names\(.*%s" % CB, a) or re.search(r"iter#\d+\) as Some\)\.0\)\}$", a) and False:
             kinds.add("replacement")
         # resolve the iterated collection of `for vn in X.var_names()`
-        m = re.match(r"^tuple\{std::clone::Clone::clone\(\(std::iter::Iterator::next\(var:(\S+)\) as Some\)\.0\)\}$", a)
+        # (the name is handed over cloned, or by reference and cloned by the closure: Clone::clone is the identity on values)
+        m = re.match(r"^tuple\{(?:std::clone::Clone::clone\()?\(std::iter::Iterator::next\(var:([^\s()]+)\) as Some\)\.0\)?\}$", a)
         if m:
             li = org.local_by_name(m.group(1))
             dt = org.def_term(li) if li is not None else ""
@@ -168,7 +169,7 @@ def run(ctx):
                 kinds.add("child")
             else:
                 chk.unrecognised("R11.2", "push-origin", "a name pushed into the rebuilt list comes from %s" % (dt or a)[:140], loc(t["span"]))
-        elif re.match(r"^tuple\{std::clone::Clone::clone\(\(.* as Var\)\.0\.1\)\}$", a):
+        elif re.match(r"^tuple\{(?:std::clone::Clone::clone\()?\(.* as Var\)\.0\.1\)?\}$", a):
             kinds.add("untouched")
         else:
             chk.unrecognised("R11.2", "push-origin", "a name pushed into the rebuilt list is not recognised: %s" % a[:140], loc(t["span"]))
